@@ -87,6 +87,19 @@ def Opt(s):
 _counter = [0]
 
 
+_used_names = set()
+
+
+def _unique(name):
+    """explicit names of recursive predicates must be unique per process (shapes built inside setup() are rebuilt on every path)"""
+    n, k = name, 1
+    while n in _used_names:
+        k += 1
+        n = f"{name}~{k}"
+    _used_names.add(n)
+    return n
+
+
 def _fresh_name(prefix):
     _counter[0] += 1
     return f"{prefix}#{_counter[0]}"
@@ -99,7 +112,7 @@ class ListOf(Shape):
     def __init__(self, elem, name=None):
         self.elem = elem
         self._all = None
-        self.name = name or _fresh_name("all")
+        self.name = _unique(name) if name else _fresh_name("all")
 
     def all_fn(self):
         if self._all is None:
